@@ -77,6 +77,18 @@ func drainWatch(res *bs.Results, limit time.Duration) (rows []map[string]any, ok
 	}
 }
 
+// closeWatch calls Close under a watchdog; false when it did not return in time.
+func closeWatch(res *bs.Results, limit time.Duration) bool {
+	done := make(chan struct{})
+	go func() { res.Close(); close(done) }()
+	select {
+	case <-done:
+		return true
+	case <-time.After(limit):
+		return false
+	}
+}
+
 func directedQuerySide(c *ctx, r Rng, which string) {
 	switch which {
 	case "C20":
@@ -374,24 +386,44 @@ func dirCancelledWaiterReads(c *ctx, r Rng) {
 			if r.Chance(0.5) {
 				wcancel()
 			} else {
-				wres.Close()
+				closeWatch(wres, 2*time.Second) // judged below, again under a watchdog
 			}
 			time.Sleep(30 * time.Millisecond)
 		}
+		// a third query started after W gave up, while H's reads are still pinned: a slot that W's cancelled
+		// workers freed without holding it shows up as one store read too many
+		xres, xerr := eng.Query(context.Background(), &bs.Query{})
+		xdone := make(chan int, 1)
+		if xerr == nil {
+			go func() { rows, _ := drainWatch(xres, 20*time.Second); xdone <- len(rows) }()
+			time.Sleep(40 * time.Millisecond)
+		}
 		maxReads := env.Data.MaxConcurrentReads()
 		close(release)
-		<-hdone
-		hres.Close()
+		hrows := <-hdone
+		var stuck []string
+		if !closeWatch(hres, 5*time.Second) {
+			stuck = append(stuck, "H (the query that held every slot)")
+		}
 		wcancel()
-		if werr == nil {
-			wres.Close()
+		if werr == nil && !closeWatch(wres, 5*time.Second) {
+			stuck = append(stuck, "W (the cancelled waiter)")
+		}
+		if xerr == nil {
+			<-xdone
+			if !closeWatch(xres, 5*time.Second) {
+				stuck = append(stuck, "X (a query started after the waiter gave up)")
+			}
 		}
 		env.Data.Gate = nil
-		replay := map[string]any{"MaxQueryConcurrency": mqc, "pinned": ok, "max_concurrent_reads": maxReads}
+		replay := map[string]any{"MaxQueryConcurrency": mqc, "pinned": ok, "max_concurrent_reads": maxReads, "rows_of_H": hrows}
+		if len(stuck) > 0 {
+			c.r.Add(Finding{Kind: "violation", Check: "cancelled-waiter-blocks-others", Detail: fmt.Sprintf("after a query was cancelled while waiting for a slot (MaxQueryConcurrency=%d), Close of %s did not return within 5s: with a consumer that stopped reading while its workers waited for a slot, queries no longer complete", mqc, strings.Join(stuck, " and of ")), Replay: replay})
+		}
 		c.r.Case(ok, fmt.Sprint("cancelled-waiter", i, mqc))
 		c.r.Hit("directed.cancelled-waiter." + b2s(ok))
 		if int(maxReads) > mqc {
-			c.r.Add(Finding{Kind: "violation", Check: "reads-exceed-cap", Detail: fmt.Sprintf("%d store reads were in progress at once with MaxQueryConcurrency=%d: a query cancelled while waiting for a slot read without one", maxReads, mqc), Replay: replay})
+			c.r.Add(Finding{Kind: "violation", Check: "reads-exceed-cap", Detail: fmt.Sprintf("%d store reads were in progress at once with MaxQueryConcurrency=%d: a query cancelled while waiting for a slot read without one, or freed a slot it did not hold", maxReads, mqc), Replay: replay})
 		}
 	}
 }
